@@ -1,8 +1,7 @@
 import GlueVerif.Lemmas.C17Inv
 import Mathlib.Data.List.Perm.Subperm
 /-!
-Helper lemmas for C17, part 2: every call of the mutation API that lies inside the hypothesis
-`classify s op = ok` preserves the state invariant `Inv`.
+Helper lemmas for C17, part 2: the calls of the mutation API preserve the state invariant `Inv`.
 -/
 namespace GlueVerif.Lemmas.C17
 open GlueVerif.DataStruct
